@@ -581,3 +581,68 @@ def c_formats_agree(k):
                     ok, how = False, f"raised {type(e).__name__}: {e}"
                 k.prove(f"System.{name}: format '{fmt}' gives the matrix of format 'coo'", ok, show=how)
         k.prove("vacuity guard: at least 25 matrix routines compared", n >= 25, show=str(n))
+
+
+@contract("C14", "real contributions/a system that lost a contribution equals a freshly built system of the same collection", samples=0, replayable=False, timeout=60)
+def c_remove_then_fresh(k):
+    """"Across any sequence of adding and removing contributions" on real contributions: a leading body is removed after a
+    first assembly, the DOF layout shifts, and after re-assembly every System evaluation must equal that of a system
+    built from scratch from the same remaining collection (force laws on interactions passed inline, on interactions
+    added before and after their force law, joints, forces) - index sets a contribution kept from the old layout show."""
+    from vk import kit as K
+    from vk import npshim
+
+    if not k.sym:
+        raise K.Reject("decided by native execution")
+    import contextlib
+    import io
+    import warnings
+
+    from cardillo import System
+    from cardillo.constraints import Revolute
+    from cardillo.discrete import PointMass, RigidBody
+    from cardillo.force_laws import KelvinVoigtElement, MaxwellElement, Spring
+    from cardillo.forces import Force
+    from cardillo.interactions import TwoPointInteraction
+
+    def collection(with_leading):
+        s = System()
+        pm0 = PointMass(0.3, q0=np.array([5.0, 5.0, 5.0]), name="leading")
+        rb1 = RigidBody(1.0, np.diag([0.1, 0.2, 0.3]), q0=np.array([0.5, 0, 0, 1, 0, 0, 0.0]), name="rb1")
+        rb2 = RigidBody(2.0, np.diag([0.3, 0.2, 0.1]), q0=np.array([1.5, 0, 0, 1, 0, 0, 0.0]), name="rb2")
+        pm3 = PointMass(0.7, q0=np.array([0.0, 2.0, 0.0]), name="pm3")
+        pm4 = PointMass(0.4, q0=np.array([0.0, -2.0, 1.0]), name="pm4")
+        tp_before = TwoPointInteraction(rb1, pm4, name="tp_before")
+        tp_after = TwoPointInteraction(pm3, pm4, name="tp_after")
+        parts = ([pm0] if with_leading else []) + [
+            rb1, rb2, pm3, pm4,
+            Revolute(rb1, rb2, axis=1, r_OJ0=np.array([1.0, 0, 0]), name="hinge"),
+            Force(np.array([0, 0, -9.81]), rb1, name="g1"), Force(np.array([0, 0.3, -1.0]), rb2, B_r_CP=np.array([0.1, 0, 0.2]), name="g2"),
+            Spring(TwoPointInteraction(rb1, rb2, B_r_CP1=np.array([0, 0.1, 0.2]), name="tp_inline1"), 5.0, l_ref=0.8, compliance_form=False, name="spring_inline"),
+            KelvinVoigtElement(TwoPointInteraction(rb2, pm3, name="tp_inline2"), 2.0, 0.3, l_ref=1.1, compliance_form=True, name="kv_inline"),
+            tp_before, Spring(tp_before, 3.0, l_ref=0.5, compliance_form=True, name="spring_tp_before"),
+            MaxwellElement(tp_after, 4.0, 0.6, l_ref=2.0, name="maxwell"), tp_after,
+        ]
+        s.add(*parts)
+        return s
+
+    with npshim.active(False), warnings.catch_warnings(), contextlib.redirect_stdout(io.StringIO()):
+        warnings.simplefilter("ignore")
+        s = collection(True)
+        ok, _ = k.no_raise("first assembly", s.assemble)
+        if not ok:
+            return
+        s.remove(s.contributions_map["leading"])
+        ok, _ = k.no_raise("assembly after the removal", s.assemble)
+        if not ok:
+            return
+        fresh = collection(False)
+        fresh.assemble()
+        a, b = _evaluate_all(s, np.random.default_rng(9)), _evaluate_all(fresh, np.random.default_rng(9))
+        k.prove("same sizes as the freshly built system", (s.nq, s.nu, s.nla_g, s.nla_c) == (fresh.nq, fresh.nu, fresh.nla_g, fresh.nla_c), show=str((s.nq, s.nu, s.nla_g, s.nla_c)))
+        for key in a:
+            k.prove(f"{key}: system after add / assemble / remove / assemble equals the freshly built one", _same(a[key], b[key]))
+        s.assemble()
+        c2 = _evaluate_all(s, np.random.default_rng(9))
+        for key in a:
+            k.prove(f"{key}: unchanged by a further assemble()", _same(a[key], c2[key]))
